@@ -366,12 +366,12 @@ func (g *goBuilder) build(term string, t types.Type, depth int) string {
 
 // specToGo renders a contract expression as Go source evaluated inside the test.
 type goRender struct {
-	p     *Prog
-	vc    *VC
-	fail  string
-	funcs map[string]string // helper functions for defines
-	order []string
-	depth int
+	p       *Prog
+	vc      *VC
+	fail    string
+	funcs   map[string]string // helper functions for defines
+	order   []string
+	depth   int
 	helpers bool
 }
 
